@@ -105,6 +105,7 @@ class IntEnc:
         self.varatom = {}     # var name -> atom
         self.defs = {}        # atom -> ("split"|"wrap"|..., data) for concrete evaluation
         self.zero_forms = []  # forms proven/known to be zero (Lin)
+        self.fb = {}          # form key -> (lo, hi) bounds implied by emitted constraints
         self._n = 0
 
     # -------------------------------------------------------- atoms
@@ -127,6 +128,13 @@ class IntEnc:
         return a
 
     def interval(self, f):
+        b = self.fb.get(f.key())
+        lo, hi = self._interval(f)
+        if b is not None:
+            lo, hi = max(lo, b[0]), min(hi, b[1])
+        return lo, hi
+
+    def _interval(self, f):
         lo = hi = f.c
         for a, k in f.m.items():
             al, ah = self.atoms[a]
@@ -162,6 +170,7 @@ class IntEnc:
         q = self.new_atom(tag, 0, qh - ql, ("quot", f, w, ql))
         r = f - Lin(0, {q: M}) - ql * M
         self.cons.append("(<= 0 %s %d)" % (r.smt(), M - 1))
+        self.fb[r.key()] = (0, M - 1)
         rl, rh = (0, M - 1) if qh > ql else (lo - ql * M, hi - ql * M)
         self.splits[key] = (r, Lin(ql, {q: 1}), ql, qh, max(rl, 0), min(rh, M - 1))
         return r, max(rl, 0), min(rh, M - 1)
@@ -186,6 +195,7 @@ class IntEnc:
             q = self.new_atom("h", 0, hh - hl, ("quot", f, k, hl))
             low = f - Lin(0, {q: K}) - hl * K
             self.cons.append("(<= 0 %s %d)" % (low.smt(), K - 1))
+            self.fb[low.key()] = (0, K - 1)
             s = (low, Lin(hl, {q: 1}), hl, hh, 0, K - 1 if hh > hl else hi - hl * K)
             self.splits[key] = s
         return s[0], s[4], s[5], s[1], s[2], s[3]
@@ -347,6 +357,7 @@ class IntEnc:
             q = self.new_atom("b", 0, 1, ("borrow", d))
             low = d + Lin(0, {q: K})
             self.cons.append("(<= 0 %s %d)" % (low.smt(), K - 1))
+            self.fb[low.key()] = (0, K - 1)
             v = d + Lin(0, {q: 2 * K})
             self.splits[(v.key(), iw)] = (low, Lin(0, {q: 1}), 0, 1, 0, K - 1)
             return v, 0, 2 * K - 1
